@@ -72,6 +72,40 @@ Theorem C23_refusal_unchanged :
 Proof. exact refusal_unchanged. Qed.
 Print Assumptions C23_refusal_unchanged.
 
+(* ---- two committers on one master -------------------------------------------------- *)
+
+(* [commit_race s i j]: checkout j's whole commit runs between checkout i's comparison
+   of the local and master tips (made before the master is locked) and i's taking of
+   the master lock.  The master is re-read under the lock: when j has moved it to a
+   revision i's tree is not based on, i is refused with OutOfDateTree, the state is the
+   one j left (j's revision stays the master tip) and i writes nothing *)
+Theorem C23_race_refused_when_master_moved :
+  forall s i j c x,
+  nth_error (cos s) i = Some c -> is_bound c = true ->
+  tip (lbranch c) = tip (mbranch s) -> i <> j ->
+  let s1 := snd (commit (mkS (graph s ++ [tparents c]) (mbranch s) (cos s)) j false None) in
+  tip (mbranch s1) = Some x -> hd_error (tparents c) <> Some x ->
+  commit_race s i j = (Fail OutOfDateTree, s1).
+Proof. exact race_refused. Qed.
+Print Assumptions C23_race_refused_when_master_moved.
+
+(* conversely a race that succeeds found the master, under its lock, where i's tree is based *)
+Theorem C23_race_done_based :
+  forall s i j c s',
+  nth_error (cos s) i = Some c -> is_bound c = true ->
+  tip (lbranch c) = tip (mbranch s) -> i <> j ->
+  commit_race s i j = (Done, s') ->
+  let s1 := snd (commit (mkS (graph s ++ [tparents c]) (mbranch s) (cos s)) j false None) in
+  (tip (mbranch s1) = None \/ tip (mbranch s1) = hd_error (tparents c)) /\
+  tip (mbranch s') = Some (length (graph s)).
+Proof. exact race_done_based. Qed.
+Print Assumptions C23_race_done_based.
+
+Example C23_race_refused_ex :
+  exists s1 c2, commit_race (init [false; true; true] true) 1 2 = (Fail OutOfDateTree, s1) /\
+    tip (mbranch s1) = Some 2 /\ nth_error (cos s1) 2 = Some c2 /\ tip (lbranch c2) = Some 2.
+Proof. eexists. eexists. repeat split; reflexivity. Qed.
+
 (* ---- master first ---------------------------------------------------------------- *)
 
 (* the writes of a bound commit, in order: master tip, local tip, tree basis *)
